@@ -7,6 +7,8 @@
 (*          payloads, GUID field order, tick 0 <-> zero time)                *)
 (*   str  : ReadStringBytes(SharedMemory) errors iff the declared length     *)
 (*          exceeds the buffer, otherwise returns exactly the bytes          *)
+(*   seq  : several values read from one ErrorReader: each comes back and     *)
+(*          exactly their bytes are consumed                                   *)
 (*   blen : a byte-slice function given fewer bytes than the width does not  *)
 (*          return and touches nothing behind the slice; given more, it uses *)
 (*          exactly the first `width` bytes                                  *)
@@ -41,6 +43,13 @@ Why(e) ==
         IF e.panic # "" THEN "Read" \o e.t \o " (stream) panicked on a short read: " \o e.panic
         ELSE IF ~e.errset THEN "Read" \o e.t \o " (stream): a failed read is not reflected in Err"
         ELSE IF e.a # e.b THEN "Read" \o e.t \o " (stream): the value returned after a failed read depends on the previous read (stale scratch bytes)"
+        ELSE ""
+    [] e.ev = "seq" ->
+        LET what == "reading " \o ToString(e.types) \o " from one ErrorReader over a " \o e.reader \o " reader: " IN
+        IF e.panic # "" THEN what \o "panic: " \o e.panic
+        ELSE IF e.err THEN what \o "Err is set although every value is there"
+        ELSE IF ~e.ok THEN what \o e.bad \o " is not the value on the stream"
+        ELSE IF e.consumed # e.want THEN what \o "consumed " \o ToString(e.consumed) \o " bytes, the values have " \o ToString(e.want)
         ELSE ""
     [] e.ev = "blen" ->
         LET fn == (IF e.op = "read" THEN "Read" ELSE "Write") \o e.t \o "Bytes"
